@@ -34,7 +34,8 @@ DEDICATED = ('xdoctest.checker.GotWantException', 'xdoctest.checker.ExtractGotRe
 
 
 def run(ctx):
-    for fn in (r1_escape_return_mode, r2_user_code_calls, r3_fail_store_leaves_loop, r4_render_index, r5_runner_policy, r6_plugin_render, r7_render_raises):
+    for fn in (r1_escape_return_mode, r2_user_code_calls, r3_fail_store_leaves_loop, r4_render_index, r5_runner_policy, r6_plugin_render, r7_render_raises,
+               r8_failed_part_set_before_failure, r9_failing_line_source):
         ctx.rep.rule(fn, ctx)
 
 
@@ -312,6 +313,36 @@ def r3_fail_store_leaves_loop(ctx):
         q = graph.path(fs.nsucc(), lambda x: any(x is pn for (pn, _) in rr.post_run_sites), efilter=lambda a, b, k, tok: k == 'n' and rmf(a, b, k, tok))
         rep.ob('C09.R3', ctx.loc(rr.f, fs.ast), ctx.src(fs.ast) + ' -> _post_run', q is not None,
                'the summary is built after the recorded failure' if q is not None else 'no return-mode path from the recorded failure reaches _post_run', anchor=RUN)
+
+
+# ---------------------------------------------------------------------------
+def r8_failed_part_set_before_failure(ctx):
+    """the report is rendered from failed_part: whenever a failure is recorded inside the loop, failed_part has been
+    set to the part of THIS iteration on every path from the iteration entry (a stale or missing failed_part makes
+    failed_line_offset()/repr_failure() raise or name another part)"""
+    rr = run_roles(ctx)
+    rep = ctx.rep
+    sets = []
+    for d in rr.rd.defs_of('self.failed_part'):
+        if rr.in_loop(d.node) and isinstance(d.value, ast.AST) and isinstance(d.value, ast.Name) and d.value.id == rr.part_var:
+            sets.append(d.node)
+    n = 0
+    for fs in rr.fail_stores:
+        if not rr.in_loop(fs):
+            continue
+        n += 1
+        wit = graph.must_pass([rr.iter_entry], lambda x: x is fs, through=sets, stop=[rr.loop])
+        rep.ob('C09.R8', ctx.loc(rr.f, fs.ast), ctx.src(fs.ast) + ' after failed_part = %s' % rr.part_var, wit is None and bool(sets),
+               'failed_part names the part of this iteration whenever a failure is recorded' if wit is None and sets else
+               'a failure can be recorded while failed_part still names an earlier part (or None): the report cannot be rendered or names the wrong line',
+               witness=None if wit is None else graph.fmt_path(wit, rr.f.module.relpath), anchor=RUN)
+    rep.floor('C09.R8', 'fail stores inside the part loop', n, 4)
+
+
+def r9_failing_line_source(ctx):
+    """the report names the failing source line: same structural clause as C08.R2"""
+    from . import c08
+    c08.r2_first_frame(ctx, rule='C09.R9')
 
 
 # ---------------------------------------------------------------------------
@@ -644,6 +675,8 @@ DE = 'xdoctest/doctest_example.py'
 CK = 'xdoctest/checker.py'
 RN = 'xdoctest/runner.py'
 VARIANTS = [
+    fire('failed-part-set-after-directive-update', 'C09.R8', ('xdoctest/doctest_example.py', "                self.failed_part = part  # Assume part will fail (it may not)\n", ""), ('xdoctest/doctest_example.py', "                if not did_pre_import:\n", "                self.failed_part = part\n                if not did_pre_import:\n")),
+    fire('report-line-from-f_lineno', 'C09.R9', ('xdoctest/doctest_example.py', "                            found_lineno = sub_tb.tb_lineno\n", "                            found_lineno = sub_tb.tb_frame.f_lineno\n")),
     fire('gotwant-not-recorded', 'C09.R1',
          (DE, "                except checker.GotWantException:\n                    # When the \"got\", doesn't match the \"want\"\n                    self.exc_info = sys.exc_info()\n",
               "                except checker.GotWantException:\n                    # When the \"got\", doesn't match the \"want\"\n                    pass\n")),
